@@ -148,10 +148,14 @@ impl TransactionManager {
         let tx_id = TxId::new(self.next_tx_id.fetch_add(1, Ordering::Relaxed));
         #[cfg(grafeo_verif)]
         grafeo_common::verif::yield_point("tx.begin.load");
+        // Read the epoch under the table lock: commit() and gc() hold the same lock, so no
+        // commit + clean-up can slip between reading the snapshot epoch and becoming visible
+        // to gc() as an active transaction.
+        let mut txns = self.transactions.write();
         let epoch = EpochId::new(self.current_epoch.load(Ordering::Acquire));
 
         let info = TxInfo::new(epoch, isolation_level);
-        self.transactions.write().insert(tx_id, info);
+        txns.insert(tx_id, info);
         tx_id
     }
 
